@@ -63,3 +63,11 @@ claim("C19", "other", "one-variable interval abstract interpretation (|buf|-cap)
       "Len >= cap, so below capacity the buffer is the exact set. Does NOT decide unbiasedness (a statement about a probability distribution) or the p = 0 corner.",
       BASE_NOTE + " Assumes NewCounter is called with size >= 1.",
       "DESIGN.md section 3, C19")
+claim("C20", "other", "linear-form + congruence reasoning over induction variables for unsafe word accesses; closure/dominance rules for Trunc; value-set rule for CompareNatural",
+      "Decides: each unsafe 8-byte access in mbits (Zero, LeadingZeroes, TrailingZeroes) satisfies 0 <= i and i+8 <= len(data) for every length - index expressions are reduced "
+      "to linear forms over n and n&^7 with congruences mod 8 from the loop step and bounds from initial values and dominating guards ('never reading or writing outside it'); "
+      "Trunc returns s or a prefix s[:h] with h reached from n by decrements only, under n < len(s), and every s[h-1] is guarded by h > 0 (prefix of at most n bytes, no panic); "
+      "every value CompareNatural returns is a cmp.Compare result, hence in {-1,0,1}. Does NOT decide that the zero counts are right, UTF-8 validity, the 'at most 4 bytes "
+      "shorter' clause, or that CompareNatural is a total preorder.",
+      BASE_NOTE,
+      "DESIGN.md section 3, C20")
